@@ -192,6 +192,12 @@ func (ma *ModuleAnalyzer) analyzeModuleDependencies(graph *DependencyGraph, file
 		return fmt.Errorf("module not found in graph: %s", moduleName)
 	}
 
+	// A file m.py next to a package m/ is never imported (the package wins): the
+	// module is the package, and this file contributes nothing to it.
+	if module.FilePath != filePath {
+		return nil
+	}
+
 	// Extract module information
 	ma.extractModuleInfo(result.AST, module)
 
